@@ -88,6 +88,33 @@ def gen_create_script(rng):
     return '\n'.join(L) + '\n'
 
 
+def gen_failed_switch_script(rng):
+    """The creation of the NEXT blob fails when the worker switches away from a full active blob (nobody's call
+    reports it: the request came from a write that was acknowledged). Once the fault is cleared the next write asks
+    again: rotation, dumps and syncs go on."""
+    maxrec = rng.choice([2, 4, 7])
+    L = ['cfg K=4 dup=1 group=2 bloom=none init=eager runtime=%s maxrec=%d' % (rng.choice(['mt', 'ct']), maxrec), 'open']
+    keys = ['%08x' % (i + 1) for i in range(3)]
+    qs = ['R %s' % k for k in keys]
+    seed = 0
+    for _ in range(rng.randrange(0, 2) * maxrec + maxrec - rng.choice([0, 0, 1])):
+        seed += 1
+        L.append('W %s %d - 5 %d' % (rng.choice(keys), rng.choice([5, 7, 9]), seed))
+    # (the worker looks at a switch request only when its debounce interval has passed: hence the pauses)
+    L.append('sleep 250')
+    L.append('fail create .blob 0 %s' % rng.choice(['ENOSPC', 'EIO']))
+    for _ in range(rng.choice([1, 2, 3])):
+        seed += 1
+        L.append('W %s %d - 5 %d' % (rng.choice(keys), rng.choice([5, 7, 9, 12]), seed))
+        L += qs + ['sleep 250']
+    L += ['sleep 250', 'clearfail', 'quiesce'] + qs + ['counts']
+    for _ in range(3):
+        seed += 1
+        L.append('W %s %d - 5 %d' % (rng.choice(keys), rng.choice([5, 7, 9, 12, 15]), seed))
+    L += ['force_update always', 'quiesce'] + qs + ['counts', rng.choice(['close', 'close', 'drop']), 'open'] + qs + ['counts']
+    return '\n'.join(L) + '\n'
+
+
 def gen_delete_script(rng):
     """The fault hits the append of the deletion marker to the ACTIVE blob while the key also lives in closed blobs
     (a delete goes to the active blob first, then to every closed blob): the delete returns an error and must not be
@@ -154,7 +181,7 @@ def gen_torn_script(rng):
 
 def gen(tier, rng):
     n = 260 if tier == 'quick' else 6000
-    return [('fault%05d' % i, gen_script(rng)) for i in range(n)] + [('create%05d' % i, gen_create_script(rng)) for i in range(n // 3)] + \
+    return [('fault%05d' % i, gen_script(rng)) for i in range(n)] + [('create%05d' % i, gen_create_script(rng)) for i in range(n // 3)] + [('failedswitch%05d' % i, gen_failed_switch_script(rng)) for i in range(n // 10)] + \
            [('delete%05d' % i, gen_delete_script(rng)) for i in range(n // 5)] + [('torn%05d' % i, gen_torn_script(rng)) for i in range(n // 8)]
 
 
@@ -237,6 +264,10 @@ def oracle(lines, io, spec=None):
                 fails.append(tag_for(i) + 'line %d `%s` after `%s`: implementation `%s`, acknowledged history implies `%s`' % (i, l, fault, io[i], want))
                 break
     # mutators succeed once the fault is cleared; rotation continues
+    for i in range(fi, min(close_i, len(io))):
+        if io[i] == 'quiesce dead':
+            fails.append('line %d: background maintenance has stopped after `%s` (the worker task has ended): no rotation, no index dump, no background sync from here on' % (i, fault))
+            break
     for i in range(ci, min(close_i, len(io))):
         if lines[i].split()[0] in ('W', 'D') and ' Err ' in io[i]:
             fails.append(tag_for(i) + 'line %d `%s`: still failing after the fault was cleared: %s' % (i, lines[i], io[i]))
